@@ -51,6 +51,13 @@ def mkHuff (lengths : Array Nat) : Huff :=
     return s
   { counts, symbols }
 
+/-- RFC 1951 3.2.2: the code lengths must describe a Huffman code.  As zlib and Go's inflaters read that: the code is
+complete (Kraft sum exactly 1; neither over- nor under-subscribed), or it is the degenerate single code of length 1, or there
+is no code at all (an empty table fails when it is first used).  Lengths are at most 15. -/
+def validLengths (lengths : Array Nat) : Bool :=
+  let nz := lengths.toList.filter (· != 0)
+  nz.isEmpty || nz == [1] || nz.foldl (fun a l => a + 2 ^ (15 - l)) 0 == 2 ^ 15
+
 /-- decode one symbol (zlib `puff` algorithm) -/
 def Huff.decode (h : Huff) (r : BitReader) : Option (Nat × BitReader) :=
   let rec go (len : Nat) (code first index : Nat) (r : BitReader) (fuel : Nat) : Option (Nat × BitReader) :=
@@ -140,9 +147,11 @@ def dynamic (r : BitReader) : Option (Huff × Huff × BitReader) := do
       let (v, r) ← r.readBits 3
       rd (i + 1) r (ls.set! clOrder[i]! v) fuel
   let (cls, r) ← rd 0 r (Array.replicate 19 0) ncode
+  if !validLengths cls then none else
   let cl := mkHuff cls
   let (ls, r) ← readLengths cl (nlen + ndist) r #[] 400
   if ls[256]! = 0 then none else
+  if !validLengths (ls.extract 0 nlen) || !validLengths (ls.extract nlen (nlen + ndist)) then none else
   pure (mkHuff (ls.extract 0 nlen), mkHuff (ls.extract nlen (nlen + ndist)), r)
 
 /-- blocks until BFINAL or input exhausted at a block boundary -/
